@@ -53,15 +53,28 @@ func vpTransported(u *Update) *Update {
 
 // C10-O3: every single corruption of an authentic update (events 0..n of a
 // history built by the issuer's real code) is rejected by Update.Verify and
-// by Witness.Update, which leaves the witness unchanged; the uncorrupted
-// transported update is accepted.
+// by Witness.Update - whether the witness is behind the message, at the same
+// accumulator index or ahead of it - which leaves the witness unchanged; the
+// uncorrupted transported update is accepted.
 func vpC10_O3() {
 	n := vpParam("nevents", 2)
 	h := vpBuildHistory(n)
 	other, otherSk := vpKeys(1, 1, 1024, true)
 	_ = other
-	wit := h.witness("E", 0, 0)
-	upd := vpTransported(h.update(0, n))
+	// the witness is behind the update (index 0), at the same index (n), or ahead of it
+	// (index n, update ending at n-1)
+	wpos := vpChoose("witnessPosition", 3)
+	widx, last := 0, n
+	switch wpos {
+	case 1:
+		widx = n
+	case 2:
+		vpAssume(n >= 1)
+		widx, last = n, n-1
+	}
+	wit := h.witness("E", widx, 0)
+	upd := vpTransported(h.update(0, last))
+	n = last
 	k := vpChoose("k", n+1) // the event the corruption targets
 	corrupt := vpChoose("corruption", 14)
 	switch corrupt {
@@ -113,18 +126,22 @@ func vpC10_O3() {
 		bogus := &Event{Index: upd.Events[n].Index + 1, E: vpSmallPrime("e_bogus"), ParentHash: upd.Events[n].hash()}
 		upd.Events = append(upd.Events, bogus)
 	}
-	_, verr := upd.Verify(h.pk)
-	oldU, oldSacc := wit.U, wit.SignedAccumulator
-	// Witness.Update gets its own transported copy (verification marks lists as verified)
+	expect := last // the accumulator the witness is valid against after an authentic message
+	if widx > last {
+		expect = widx
+	}
+	oldU, oldSacc, oldAcc, oldUpdated := wit.U, wit.SignedAccumulator, wit.SignedAccumulator.Accumulator, wit.Updated
+	// the witness sees the message first (verification marks event lists as verified)
 	uerr := wit.Update(h.pk, upd)
+	_, verr := upd.Verify(h.pk)
 	if corrupt == 0 {
 		vpAssert("authentic transported update verifies", verr == nil)
-		vpAssert("authentic transported update updates the witness", uerr == nil && vpWitnessValidAgainst(wit, h.accs[n], h.pk))
+		vpAssert("authentic transported update updates the witness", uerr == nil && vpWitnessValidAgainst(wit, h.accs[expect], h.pk))
 		return
 	}
 	vpAssert("corrupted update is rejected by Update.Verify", verr != nil)
 	vpAssert("corrupted update is rejected by Witness.Update", uerr != nil)
-	vpAssert("rejected update leaves the witness unchanged", wit.U == oldU && wit.SignedAccumulator == oldSacc)
+	vpAssert("rejected update leaves the witness unchanged", wit.U == oldU && wit.SignedAccumulator == oldSacc && wit.SignedAccumulator.Accumulator == oldAcc && wit.Updated == oldUpdated)
 }
 
 // C10-O4: Update.Prepend merges older events only if the merged chain
